@@ -267,3 +267,162 @@ pub fn capture_stdout<R>(f: impl FnOnce() -> R) -> (R, Vec<u8>) {
     out.truncate(off);
     (r, out)
 }
+
+// ---------------------------------------------------------------- timed continuous runs (E5)
+
+/// one portion of a timed stream: the bytes are written, the harness waits until the reader has taken and
+/// processed them (it is blocked in a read on an empty pipe), then virtual time advances by `advance_ms`
+#[derive(Clone, Debug)]
+pub struct TimedStep {
+    pub bytes: Vec<u8>,
+    pub advance_ms: i64,
+}
+
+/// What a timed run observed: outcome of the reader, virtual milliseconds that passed, and whether every
+/// portion was seen consumed before the clock moved (false = the reader was gone or never blocked again).
+pub struct TimedRun {
+    pub outcome: Outcome,
+    pub elapsed_ms: i64,
+    pub all_consumed: bool,
+    pub machinery: Option<String>,
+}
+
+static FIFO_SEQ: AtomicU64 = AtomicU64::new(0);
+
+/// the fd (other than `mine`) of this process that has `path` open
+fn other_fd_on(path: &std::path::Path, mine: i32) -> Option<i32> {
+    for e in std::fs::read_dir("/proc/self/fd").ok()?.flatten() {
+        let Some(fd) = e.file_name().to_str().and_then(|x| x.parse::<i32>().ok()) else { continue };
+        if fd == mine {
+            continue;
+        }
+        if std::fs::read_link(e.path()).ok().as_deref() == Some(path) {
+            return Some(fd);
+        }
+    }
+    None
+}
+
+/// a thread of this process is blocked in read(fd, ..) and nothing is left in the pipe
+fn pipe_drained_and_reader_blocked(rfd: i32) -> bool {
+    let mut inq: libc::c_int = 0;
+    if unsafe { libc::ioctl(rfd, libc::FIONREAD, &mut inq) } != 0 || inq != 0 {
+        return false;
+    }
+    std::fs::read_dir("/proc/self/task").ok().into_iter().flatten().flatten().any(|e| {
+        std::fs::read_to_string(e.path().join("syscall")).ok().is_some_and(|l| {
+            let mut it = l.split_whitespace();
+            let nr = it.next().and_then(|x| x.parse::<i64>().ok());
+            let a0 = it.next().and_then(|x| i64::from_str_radix(x.trim_start_matches("0x"), 16).ok());
+            nr == Some(libc::SYS_read) && a0 == Some(rfd as i64)
+        })
+    })
+}
+
+/// Run the real reader thread over a FIFO (file source) that the harness feeds portion by portion while it
+/// owns the clock: the wall clock and CLOCK_MONOTONIC stand still while a portion is processed and jump by
+/// `advance_ms` between portions. The table's time stamps are real `Utc::now()` values of that virtual time,
+/// so fields the harness does not know (and cannot shift in a snapshot) age too. Ends with EOF; joins.
+pub fn run_timed(cfg: &Cfg, steps: &[TimedStep], table: &Table) -> TimedRun {
+    use crate::shim;
+    let mut rep = TimedRun { outcome: Outcome::Ok, elapsed_ms: 0, all_consumed: true, machinery: None };
+    let _ = std::fs::remove_file(&cfg.path);
+    let cpath = std::ffi::CString::new(cfg.path.to_string_lossy().as_bytes()).expect("path");
+    if unsafe { libc::mkfifo(cpath.as_ptr(), 0o600) } != 0 {
+        rep.machinery = Some(format!("mkfifo {}: {}", cfg.path.display(), std::io::Error::last_os_error()));
+        return rep;
+    }
+    RUNS.fetch_add(1, SeqCst);
+    shim::wall_follows_virtual_time(true);
+    let planes = Planes { aircrafts: table.clone() };
+    WD_SINCE_MS.store(mono_ms(), SeqCst);
+    WD_BUSY.store(true, SeqCst);
+    let h = spawn_reader_thread(cfg.args.clone(), planes);
+    // open the write end once the reader has the read end open (a non-blocking open fails with ENXIO before)
+    let t0 = mono_ms();
+    let wfd = loop {
+        let fd = unsafe { libc::open(cpath.as_ptr(), libc::O_WRONLY | libc::O_NONBLOCK) };
+        if fd >= 0 {
+            break fd;
+        }
+        if h.is_finished() || mono_ms() - t0 > 5_000 {
+            break -1;
+        }
+        shim::real_sleep_us(50);
+    };
+    if wfd >= 0 {
+        unsafe {
+            let fl = libc::fcntl(wfd, libc::F_GETFL);
+            libc::fcntl(wfd, libc::F_SETFL, fl & !libc::O_NONBLOCK);
+        }
+        // the reader is counted as a reader of the FIFO before its open() has returned and installed the fd
+        let t_fd = mono_ms();
+        let mut rfd = other_fd_on(&cfg.path, wfd);
+        while rfd.is_none() && !h.is_finished() && mono_ms() - t_fd < 2_000 {
+            shim::real_sleep_us(20);
+            rfd = other_fd_on(&cfg.path, wfd);
+        }
+        for s in steps {
+            WD_SINCE_MS.store(mono_ms(), SeqCst);
+            let mut off = 0usize;
+            while off < s.bytes.len() {
+                let n = unsafe { libc::write(wfd, s.bytes[off..].as_ptr() as *const libc::c_void, s.bytes.len() - off) };
+                if n <= 0 {
+                    break;
+                }
+                off += n as usize;
+            }
+            let consumed = match rfd {
+                Some(rfd) => {
+                    let t = mono_ms();
+                    let mut ok = false;
+                    while mono_ms() - t < 2_000 {
+                        if pipe_drained_and_reader_blocked(rfd) {
+                            ok = true;
+                            break;
+                        }
+                        if h.is_finished() {
+                            break;
+                        }
+                        shim::real_sleep_us(30);
+                    }
+                    ok
+                }
+                None => false,
+            };
+            if !consumed {
+                rep.all_consumed = false;
+                if std::env::var("SQV_DEBUG_TIMED").is_ok() {
+                    let mut inq: libc::c_int = -1;
+                    let r = rfd.map(|rfd| unsafe { libc::ioctl(rfd, libc::FIONREAD, &mut inq) });
+                    let sc: Vec<String> = std::fs::read_dir("/proc/self/task").ok().into_iter().flatten().flatten().filter_map(|e| std::fs::read_to_string(e.path().join("syscall")).ok()).map(|l| l.split_whitespace().take(2).collect::<Vec<_>>().join(" ")).collect();
+                    eprintln!("timed debug: rfd {rfd:?} wfd {wfd} ioctl {r:?} inq {inq} finished {} waited {} ms syscalls {sc:?}", h.is_finished(), mono_ms() - t0);
+                }
+            }
+            if s.advance_ms != 0 {
+                shim::advance_monotonic(s.advance_ms / 1000, (s.advance_ms % 1000) * 1_000_000);
+            }
+        }
+        unsafe { libc::close(wfd) };
+    } else if !h.is_finished() {
+        rep.machinery = Some("the reader never opened the FIFO".into());
+        // unblock a reader that may still be waiting in open(): a read-write open of a FIFO always succeeds
+        let fd = unsafe { libc::open(cpath.as_ptr(), libc::O_RDWR | libc::O_NONBLOCK) };
+        if fd >= 0 {
+            shim::real_sleep_us(20_000);
+            unsafe { libc::close(fd) };
+        }
+    }
+    let r = h.join();
+    WD_BUSY.store(false, SeqCst);
+    rep.elapsed_ms = shim::wall_elapsed_ms();
+    shim::wall_follows_virtual_time(false);
+    let _ = std::fs::remove_file(&cfg.path);
+    let _ = FIFO_SEQ.fetch_add(1, SeqCst);
+    rep.outcome = match r {
+        Ok(Ok(())) => Outcome::Ok,
+        Ok(Err(e)) => Outcome::IoErr(e.to_string()),
+        Err(_) => Outcome::Panic(LAST_PANIC.lock().map(|g| g.clone()).unwrap_or_default()),
+    };
+    rep
+}
